@@ -93,6 +93,12 @@ def do_op(chan, op, arg, rec, side):
                 chan.sendall_stderr(b"\x94" * arg)
         elif op == "recv":
             res = len(chan.recv(arg))
+        elif op == "recv_stderr":
+            res = len(chan.recv_stderr(arg))
+        elif op == "makefile_stdin_close":
+            chan.makefile_stdin().close()
+        elif op == "send_exit_status":
+            chan.send_exit_status(arg)
     except Spin:
         res = "spin"
     except Exception as e:
@@ -157,13 +163,14 @@ def _install_dispatch(chan):
 
 
 # ---------------------------------------------------------------------------
-def automaton(ctx, inst, transport, case, final=True):
-    """Replay one side's view of one channel instance."""
+def automaton(ctx, inst, transport, case, final=True, api=None):
+    """Replay one side's view of one channel instance.  `api` = that side's API call records (kind="api"), used to tell
+    a message produced by a call that was already in flight at release time from one produced afterwards."""
     if not inst.established:
         return
     ctx.count("channel_sides_judged")
     eof_out = close_out = 0
-    eof_n = close_n = None
+    eof_n = close_n = close_in_n = None
     close_in = False
     winok = {}  # thread -> last successful window allocation event
     eofset_n = closedset_n = None
@@ -189,9 +196,25 @@ def automaton(ctx, inst, transport, case, final=True):
             elif t == "closedset" and closedset_n is None:
                 closedset_n = e["n"]
             continue
+        if d == "out" and close_in and close_out and t != cm.CLOSE:
+            # both CLOSEs exchanged: the channel is released, nothing at all may name it any more
+            rel = max(close_n, close_in_n)
+            inflight = False
+            for a in (api or ()):
+                if a["thread"] == e.get("thread") and a["n"] < rel and a["phase"] == "call":
+                    done = [b for b in api if b["thread"] == a["thread"] and b["phase"] == "ret" and a["n"] < b["n"] < e["n"]]
+                    if not done:
+                        inflight = True
+            if inflight:
+                ctx.count("unjudged_late_message_from_call_in_flight_at_release")
+            else:
+                ctx.count("messages_after_release")
+                once("%s sent for a released channel (after both CLOSEs were exchanged)" % cm.NAMES.get(t, t),
+                     "own CLOSE sent and peer CLOSE read, yet a %s naming the channel went out" % cm.NAMES.get(t, t))
         if d == "in":
             if t == cm.CLOSE:
                 close_in = True
+                close_in_n = e["n"]
                 ctx.count("peer_close_read")
             elif t == cm.EOF:
                 ctx.count("peer_eof_read")
@@ -248,7 +271,8 @@ def automaton(ctx, inst, transport, case, final=True):
 def released_ops(ctx, p, chan, side, inst, case):
     """Operations on a released channel must fail / must not send."""
     for op, arg in (("send", 5), ("sendall", 5), ("send_stderr", 5), ("sendall_stderr", 5), ("shutdown_write", 0),
-                    ("shutdown2", 0), ("close", 0), ("recv", 5), ("shutdown1", 0)):
+                    ("shutdown2", 0), ("close", 0), ("recv", 5), ("shutdown1", 0), ("makefile_stdin_close", 0),
+                    ("send_exit_status", 7), ("recv_stderr", 5)):
         mark = len(p.rec.events)
         res = do_op(chan, op, arg, p.rec, side)
         ctx.count("released_channel_ops")
@@ -259,18 +283,9 @@ def released_ops(ctx, p, chan, side, inst, case):
             ctx.violation("%s on a released channel sent %s" % (op, cm.NAMES[new[0]["type"]]),
                           "an operation on a channel whose CLOSEs were both exchanged put a message on the wire",
                           dict(case=case, chan=inst.desc(), op=op))
-        if op.startswith("send") and not str(res).startswith("raise:"):
+        if op in ("send", "sendall", "send_stderr", "sendall_stderr") and not str(res).startswith("raise:"):
             ctx.violation("%s on a released channel did not fail (returned %s)" % (op, "a count" if isinstance(res, int) else res),
                           "a write on a released channel returned normally", dict(case=case, op=op, res=res))
-    # outside the statement's operation set: recorded, not judged
-    mark = len(p.rec.events)
-    try:
-        chan.send_exit_status(0)
-    except Exception:
-        pass
-    if [e for e in p.rec.snapshot()[mark:] if e.get("kind") == "msg" and e["side"] == side and e["dir"] == "out"
-            and e["type"] == cm.REQUEST]:
-        ctx.count("unjudged_send_exit_status_after_release_sent_request")
 
 
 def run_case(ctx, case, rng):
@@ -362,7 +377,7 @@ def run_case(ctx, case, rng):
         for side, tr in (("c", p.tc), ("s", p.ts)):
             insts, _ = cm.ledger(ev, side)
             for inst in insts:
-                st[side] = (automaton(ctx, inst, tr, case, final), inst)
+                st[side] = (automaton(ctx, inst, tr, case, final, [a for a in ev if a.get("kind") == "api" and a["side"] == side]), inst)
         ok = all(v[0] and v[0]["close_in"] and v[0]["close_out"] for v in st.values()) and len(st) == 2
         if not released and ok:
             pass  # automaton already reported "not released"
@@ -500,7 +515,7 @@ def run_kex_case(ctx, case, rng):
         for side, tr in (("c", p.tc), ("s", p.ts)):
             insts, _ = cm.ledger(ev, side)
             for inst in insts:
-                automaton(ctx, inst, tr, case, final)
+                automaton(ctx, inst, tr, case, final, [a for a in ev if a.get("kind") == "api" and a["side"] == side])
         ctx.count("kex_cases_run")
         return inside
     finally:
@@ -536,10 +551,131 @@ def run_parked_case(ctx, case, rng):
         for side, tr in (("c", p.tc), ("s", p.ts)):
             insts, _ = cm.ledger(ev, side)
             for inst in insts:
-                automaton(ctx, inst, tr, case, final)
+                automaton(ctx, inst, tr, case, final, [a for a in ev if a.get("kind") == "api" and a["side"] == side])
         return True
     finally:
         p.close()
+
+
+def run_peer_first(ctx, case, rng):
+    """The peer closes first; the local application never half-closes and only acts after both CLOSEs were exchanged."""
+    p = pair.Pair(rng=rng)
+    cm.watch(p.tc, p.rec, "c")
+    cm.watch(p.ts, p.rec, "s")
+    try:
+        if not p.start() or not p.auth():
+            ctx.inconclusive("handshake failed (peer closes first)")
+            return
+        cm.diverge_ids(p, rng)
+        c, s = p.session()
+        role = case["role"]
+        x, y = (c, s) if role == "c" else (s, c)
+        yside = "s" if role == "c" else "c"
+        if case["data"]:
+            y.send(b"\x66" * case["data"])
+        if case["peer_eof_first"]:
+            do_op(y, "shutdown_write", 0, p.rec, yside)
+        do_op(y, "close", 0, p.rec, yside)
+        released = pair.wait_for(lambda: p.tc._channels.get(c.get_id()) is None and p.ts._channels.get(s.get_id()) is None
+                                 and p.link.quiescent(0.02), 10, 0.003)
+        if not released:
+            ctx.inconclusive("channel not released after the peer's close")
+            return
+        if x.eof_sent and x.closed:
+            ctx.count("local_side_closed_by_peer_only")
+        ev = p.rec.snapshot()
+        insts = {side: cm.ledger(ev, side)[0][-1] for side in "cs"}
+        released_ops(ctx, p, x, role, insts[role], case)  # judges each operation's own messages
+        for side, tr in (("c", p.tc), ("s", p.ts)):
+            for inst in cm.ledger(ev, side)[0]:
+                automaton(ctx, inst, tr, case, True, [a for a in ev if a.get("kind") == "api" and a["side"] == side])
+        ctx.count("peer_closed_first_cases")
+        return True
+    finally:
+        p.close()
+
+
+def run_bare_close(ctx, case, rng):
+    """A hostile peer sends CHANNEL_CLOSE without EOF while more than a tenth of the window is unread; the victim
+    application then drains both streams.  Nothing may be sent for the released channel."""
+    from vf.attacker import Attacker
+    role = case["role"]
+    a = Attacker(role=role, rng=rng, victim_kw=dict(default_window_size=32768))
+    cm.watch(a.victim, a.rec, "v")
+    holder = {}
+    try:
+        if not a.start(auth=True):
+            ctx.inconclusive("attacker handshake failed (bare close)")
+            return
+        a.takeover()
+        aid = 9090
+        if role == "client":
+            a.send(cm.OPEN, "session", aid, 1 << 20, 32768)
+            r = a.wait_inbox(lambda e: e["type"] == cm.OPEN_OK, 20)
+            if r is None:
+                ctx.inconclusive("no confirmation (bare close)")
+                return
+            vid = cm.parse(bytes([cm.OPEN_OK]) + r["payload"])["sender"]
+            vchan = a.victim.accept(20)
+        else:
+            th = threading.Thread(target=lambda: holder.__setitem__("chan", a.victim.open_session(window_size=32768, timeout=30)),
+                                  daemon=True)
+            th.start()
+            r = a.wait_inbox(lambda e: e["type"] == cm.OPEN, 20)
+            if r is None:
+                ctx.inconclusive("no CHANNEL_OPEN (bare close)")
+                return
+            vid = cm.parse(bytes([cm.OPEN]) + r["payload"])["sender"]
+            a.send(cm.OPEN_OK, vid, aid, 1 << 20, 32768)
+            th.join(30)
+            vchan = holder.get("chan")
+        if vchan is None:
+            ctx.inconclusive("no victim channel (bare close)")
+            return
+        a.send(cm.DATA, vid, b"\x10" * case["n_out"])
+        if case["n_err"]:
+            a.send(cm.EXT, vid, 1, b"\x90" * case["n_err"])
+        if case["eof_first"]:
+            a.send(cm.EOF, vid)
+        mark = a.inbox_mark()
+        a.send(cm.CLOSE, vid)  # no EOF before it in the bare variant
+        if a.wait_inbox(lambda e: e["type"] == cm.CLOSE, 20, mark) is None:
+            ctx.inconclusive("victim did not answer the CLOSE")
+            return
+        ctx.count("bare_closes_answered" if not case["eof_first"] else "closes_after_eof_answered")
+        # the application drains what was buffered (crossing the 10 % threshold)
+        vchan.settimeout(5)
+        got = 0
+        for fn in (vchan.recv, vchan.recv_stderr):
+            while True:
+                b = do_op_read(fn, rng.randint(1, 4000), a.rec)
+                if not b:
+                    break
+                got += b
+        ctx.count("bytes_drained_after_release", got)
+        if got > 32768 // 10:
+            ctx.count("drains_crossing_adjust_threshold")
+        if not a.probe_alive(30):
+            ctx.inconclusive("victim stopped answering (bare close)")
+            return
+        pair.wait_for(lambda: a.link.quiescent(0.05), 5)
+        ev = a.rec.snapshot()
+        for inst in cm.ledger(ev, "v")[0]:
+            automaton(ctx, inst, a.victim, case, True, [x for x in ev if x.get("kind") == "api" and x["side"] == "v"])
+        ctx.count("bare_close_cases")
+        return True
+    finally:
+        a.close()
+
+
+def do_op_read(fn, n, rec):
+    rec.add(kind="api", side="v", op=fn.__name__, phase="call", thread=threading.get_ident())
+    try:
+        return len(fn(n))
+    except Exception:
+        return 0
+    finally:
+        rec.add(kind="api", side="v", op=fn.__name__, phase="ret", thread=threading.get_ident())
 
 
 REQ_KINDS = ("exec", "shell", "pty", "x11", "subsystem")
@@ -623,7 +759,7 @@ def run_pending_case(ctx, case, rng):
         for side, tr in (("c", p.tc), ("s", p.ts)):
             insts, _ = cm.ledger(ev, side)
             for inst in insts:
-                automaton(ctx, inst, tr, case, final)
+                automaton(ctx, inst, tr, case, final, [a for a in ev if a.get("kind") == "api" and a["side"] == side])
         ctx.count("pending_request_cases")
         return True
     finally:
@@ -649,6 +785,17 @@ def run(ctx):
                     api=("send", "send_stderr", "sendall")[j // 4 % 3], size=(1, 100, 40000)[j % 3])
         r = ctx.guard(run_parked_case, ctx, case, rng)
         ctx.case(("c22-parked", repr(case)), sample=case if i == 0 else None, nontrivial=bool(r))
+    for i in range(ctx.pick(4, 30)):
+        j = i * ctx.nshards + ctx.shard
+        case = dict(kind="peer-closes-first", role="cs"[j % 2], data=(0, 10, 5000)[j // 2 % 3], peer_eof_first=bool(j // 6 % 2))
+        r = ctx.guard(run_peer_first, ctx, case, rng)
+        ctx.case(("c22-peerfirst", repr(case), i), sample=case if i == 0 else None, nontrivial=bool(r))
+    for i in range(ctx.pick(4, 30)):
+        j = i * ctx.nshards + ctx.shard
+        case = dict(kind="bare-close-then-drain", role=("client", "server")[j % 2], eof_first=j % 4 == 3,
+                    n_out=(3300, 5000, 20000)[j // 2 % 3], n_err=(0, 3300, 9000)[j // 4 % 3])
+        r = ctx.guard(run_bare_close, ctx, case, rng)
+        ctx.case(("c22-bareclose", repr(case), i), sample=case if i == 0 else None, nontrivial=bool(r))
     for i in range(ctx.pick(5, 40)):
         j = i * ctx.nshards + ctx.shard
         role = "cs"[j % 2]
@@ -683,6 +830,11 @@ def run(ctx):
     ctx.require("kex_cases_run", 30)
     ctx.require("parked_writer_cases", 24)
     ctx.require("pending_request_cases", 30)
+    ctx.require("peer_closed_first_cases", 24)
+    ctx.require("local_side_closed_by_peer_only", 24)
+    ctx.require("bare_close_cases", 24)
+    ctx.require("bare_closes_answered", 16)
+    ctx.require("drains_crossing_adjust_threshold", 20)
     ctx.require("answers_read_after_own_close", 10)
     ctx.require("request_failures_read", 15)
     ctx.require("adjust_processed_before_writer_reacquired_lock", 20)
